@@ -17,6 +17,9 @@ GIT = threading.Lock()     # git worktree add / prune / remove are not safe to r
 SCRATCH = Path(os.environ.get("VERIF_SCRATCH", "/tmp/vseed"))
 
 
+KEEP = False
+
+
 def sh(cmd, **kw):
     return subprocess.run(cmd, stdout=subprocess.PIPE, stderr=subprocess.STDOUT, text=True, **kw)
 
@@ -59,10 +62,11 @@ def one(name, tier, extra_ids, procs):
     except subprocess.TimeoutExpired:
         out["error"] = "timeout"
     finally:
-        with GIT:
-            sh(["git", "-C", "/repo", "worktree", "remove", "--force", str(repo)])
-            shutil.rmtree(base, ignore_errors=True)
-            sh(["git", "-C", "/repo", "worktree", "prune"])
+        if not KEEP:
+            with GIT:
+                sh(["git", "-C", "/repo", "worktree", "remove", "--force", str(repo)])
+                shutil.rmtree(base, ignore_errors=True)
+                sh(["git", "-C", "/repo", "worktree", "prune"])
     json.dump(out, open(sd / "result.json", "w"), indent=1)
     return out
 
@@ -72,8 +76,11 @@ def main():
     ap.add_argument("-j", type=int, default=3)
     ap.add_argument("--tier", default="quick")
     ap.add_argument("--ids", default="", help="extra check ids to run on every change, comma separated")
+    ap.add_argument("--keep", action="store_true", help="leave the scratch copy in place (diagnosis; remove it by hand)")
     ap.add_argument("names", nargs="*")
     a = ap.parse_args()
+    global KEEP
+    KEEP = a.keep
     names = a.names or sorted(d.name for d in (ROOT / "seeded").iterdir() if (d / "patch.diff").exists())
     extra = [x for x in a.ids.split(",") if x]
     procs = max(3, 14 // a.j)
